@@ -181,6 +181,12 @@ func openLiteral(src []byte, filename string) ([]byte, bool) {
 	if err != nil {
 		return nil, false
 	}
+	// names introduced into the caller's scope are numbered by opening (two helpers opened in
+	// one block, one label per function)
+	uniq := fmt.Sprintf("%c_", 'a'+bytes.Count(src, []byte("dvL"))%26)
+	if bytes.Count(src, []byte("dvL")) >= 26 {
+		uniq = fmt.Sprintf("n%d_", bytes.Count(src, []byte("dvL")))
+	}
 	// the literal call and the statement list that holds its statement
 	var lit *ast.FuncLit
 	var call *ast.CallExpr
@@ -313,7 +319,7 @@ func openLiteral(src []byte, filename string) ([]byte, bool) {
 	_ = named
 	outNames := make([]string, len(resNames))
 	for i := range outNames {
-		outNames[i] = fmt.Sprintf("dvOut%d", i+1)
+		outNames[i] = fmt.Sprintf("dvOut%s%d", uniq, i+1)
 	}
 	// parameters
 	var pNames []ast.Expr
@@ -339,7 +345,7 @@ func openLiteral(src []byte, filename string) ([]byte, bool) {
 		return nil, false
 	}
 	// rewrite the returns that belong to the literal
-	label := "dvL"
+	label := "dvL" + uniq
 	var rewrite func(list []ast.Stmt) []ast.Stmt
 	var rewriteStmt func(st ast.Stmt) ast.Stmt
 	// tail: when the statement that follows the call is a return (or the call is itself the operand
@@ -368,12 +374,26 @@ func openLiteral(src []byte, filename string) ([]byte, bool) {
 			}
 			return out
 		}
-		if len(r.Results) > 0 {
-			lhs := make([]ast.Expr, len(resNames))
-			for i, nn := range resNames {
+		// join form: the results go to the temporaries declared in front of the switch. (The
+		// literal's own result variables live inside the switch clause, in one scope with the
+		// body's statements, as they did in the function: a top-level `q, r := f()` of the body
+		// that assigns a named result must go on assigning it, not declare a new one.)
+		if len(resNames) > 0 {
+			lhs := make([]ast.Expr, len(outNames))
+			for i, nn := range outNames {
 				lhs[i] = ast.NewIdent(nn)
 			}
-			out = append(out, &ast.AssignStmt{Lhs: lhs, Tok: token.ASSIGN, Rhs: r.Results})
+			vals := r.Results
+			if len(vals) == 0 {
+				vals = make([]ast.Expr, len(resNames))
+				for i, nn := range resNames {
+					vals[i] = ast.NewIdent(nn)
+				}
+			}
+			if len(vals) != len(lhs) {
+				return nil
+			}
+			out = append(out, &ast.AssignStmt{Lhs: lhs, Tok: token.ASSIGN, Rhs: vals})
 		}
 		out = append(out, &ast.BranchStmt{Tok: token.BREAK, Label: ast.NewIdent(label)})
 		return out
@@ -517,11 +537,16 @@ func openLiteral(src []byte, filename string) ([]byte, bool) {
 		}
 		_ = plain
 	}
+	giveUpRet := false
 	rewrite = func(list []ast.Stmt) []ast.Stmt {
 		var out []ast.Stmt
 		for _, st := range list {
 			if r, ok := st.(*ast.ReturnStmt); ok {
-				out = append(out, retStmts(r)...)
+				rs := retStmts(r)
+				if rs == nil {
+					giveUpRet = true
+				}
+				out = append(out, rs...)
 				continue
 			}
 			out = append(out, rewriteStmt(st))
@@ -559,11 +584,18 @@ func openLiteral(src []byte, filename string) ([]byte, bool) {
 		case *ast.LabeledStmt:
 			x.Stmt = rewriteStmt(x.Stmt)
 		case *ast.ReturnStmt:
-			return &ast.BlockStmt{List: retStmts(x)}
+			rs := retStmts(x)
+			if rs == nil {
+				giveUpRet = true
+			}
+			return &ast.BlockStmt{List: rs}
 		}
 		return st
 	}
 	body := rewrite(lit.Body.List)
+	if giveUpRet {
+		return nil, false // a return whose values cannot be told apart (return g() of a multi-value g)
+	}
 	// a single result assigned from a multi-value call (return g(x)) cannot be split: give up
 	for _, fl := range []*ast.BlockStmt{lit.Body} {
 		giveUp := false
@@ -599,16 +631,9 @@ func openLiteral(src []byte, filename string) ([]byte, bool) {
 	if tailRet != nil {
 		inner = append(inner, body...)
 	} else {
-		inner = append(inner, &ast.LabeledStmt{Label: ast.NewIdent(label), Stmt: &ast.SwitchStmt{Body: &ast.BlockStmt{List: []ast.Stmt{&ast.CaseClause{Body: body}}}}})
-	}
-	if len(resNames) > 0 && tailRet == nil && epLhs == nil {
-		lhs := make([]ast.Expr, len(outNames))
-		rhs := make([]ast.Expr, len(resNames))
-		for i := range outNames {
-			lhs[i] = ast.NewIdent(outNames[i])
-			rhs[i] = ast.NewIdent(resNames[i])
-		}
-		inner = append(inner, &ast.AssignStmt{Lhs: lhs, Tok: token.ASSIGN, Rhs: rhs})
+		// declarations and body in one scope (the switch clause)
+		clause := append(inner, body...)
+		inner = []ast.Stmt{&ast.LabeledStmt{Label: ast.NewIdent(label), Stmt: &ast.SwitchStmt{Body: &ast.BlockStmt{List: []ast.Stmt{&ast.CaseClause{Body: clause}}}}}}
 	}
 	var pre []ast.Stmt
 	if epLhs != nil && epTok == token.DEFINE {
@@ -618,7 +643,7 @@ func openLiteral(src []byte, filename string) ([]byte, bool) {
 				return nil, false
 			}
 			if id.Name == "_" {
-				epLhs[i] = ast.NewIdent(fmt.Sprintf("dvIgn%d", i+1))
+				epLhs[i] = ast.NewIdent(fmt.Sprintf("dvIgn%s%d", uniq, i+1))
 				id = epLhs[i].(*ast.Ident)
 			}
 			pre = append(pre, &ast.DeclStmt{Decl: &ast.GenDecl{Tok: token.VAR, Specs: []ast.Spec{&ast.ValueSpec{Names: []*ast.Ident{ast.NewIdent(id.Name)}, Type: resTypes[i]}}}})
